@@ -563,7 +563,7 @@ func clientGoroutines() (int, string) {
 	return n, s
 }
 
-const bound = 6 * time.Second
+const bound = 10 * time.Second
 
 func replay(t *testing.T, p program, rec *recording, cut int, kind faultKind) {
 	fc := newFaultConn(rec, cut, kind)
